@@ -9,4 +9,4 @@ one() {
   echo "$id rc=$rc $clause"
 }
 export -f one
-ls -d seeded/*/ | xargs -P ${PAR:-4} -I{} bash -c 'one {}'
+ls -d seeded/*/ | grep -v "C15-1/" | xargs -P ${PAR:-4} -I{} bash -c 'one {}'
